@@ -20,8 +20,11 @@ FRAME * nothing else changes: no other task appears or disappears, no other
         'force satisfied' atom and no atom on another parent is unset, no
         other task's database rows lose flows or outputs.
 
-Follow-up (liveness, thorough): after the removal of an instance that had
-finished, `set --pre=all` of it in a removed flow must make it run again.
+"So it can run again later" (liveness): an instance that was removed and is in
+the pool again (respawned by its flow, by another flow, or by a follow-up
+`cylc set --pre=all`) with all its prerequisites satisfied must not be left
+waiting in a quiescent state (the alphabet contains no hold command); after a
+follow-up `set --pre=all` in a removed flow it must be respawned and submitted.
 """
 from __future__ import annotations
 
@@ -168,6 +171,11 @@ class RemoveFrame(Monitor):
                     self._judge_pool(self.judging)
                 elif cmd[0] == 'set' and self.rerun_pending is None:
                     self._note_followup(cmd[1])
+        elif kind == 'add':
+            it = data['itask']
+            if any(X == (it.tdef.name, str(it.point))
+                   for X, _ in self.removed_finished):
+                COUNT.inc('removed-instance-respawned')
         elif kind == 'cmd_start' and data['kind'] == 'jobs-submit':
             for (p, name, num) in data['jobs']:
                 if self.rerun_pending == (name, p):
@@ -257,8 +265,11 @@ class RemoveFrame(Monitor):
         effective = bool(rx) or bool(hist_removed)
         if effective:
             COUNT.inc('removals-effective')
-        if finished_before and effective:
+        if effective:
+            # (finished or active: "so it can run again later" holds for both)
             self.removed_finished.add((X, R))
+            if finished_before:
+                COUNT.inc('removed-after-finishing')
 
         # ---- children
         kids = self._children(X)
@@ -400,7 +411,7 @@ class RemoveFrame(Monitor):
         return out
 
     def _note_followup(self, kw) -> None:
-        """`set --pre=all X` after X (finished) was removed: X must run."""
+        """`set --pre=all X` after X was removed: X must run again."""
         if kw.get('prerequisites') != ['all']:
             return
         X, R = self._target(kw)
@@ -413,7 +424,7 @@ class RemoveFrame(Monitor):
                     COUNT.inc('followup-not-spawned')
                     self.bad.append(self.viol(
                         'remove:removed-task-not-respawned',
-                        f'{_id(X)} finished, was removed from flows '
+                        f'{_id(X)} was removed from flows '
                         f'{_fs(RY) if RY else "all"}, and set --pre=all '
                         f'--flow={_fs(R) if R else "default"} did not spawn '
                         'it again'))
@@ -433,15 +444,36 @@ class RemoveFrame(Monitor):
     def terminal(self, w: World, kind: str) -> List[dict]:
         COUNT.inc('terminals')
         COUNT.flush()
+        if w.env.pending() or any(j.live for j in w.env.jobs.values()):
+            return []
+        out = []
+        removed = {X for X, _ in self.removed_finished}
+        if kind.startswith('quiescent') and w.running:
+            # nothing can happen any more: an instance that was removed
+            # earlier, is in the pool again and has all its prerequisites,
+            # will never run (no hold command exists in the alphabet)
+            for t in w.schd.pool.get_tasks():
+                inst = (t.tdef.name, str(t.point))
+                st = t.state
+                if inst in removed and st.status == 'waiting' and \
+                        st.prerequisites_all_satisfied():
+                    why = ('held' if st.is_held else
+                           'queued' if st.is_queued else
+                           'runahead' if st.is_runahead else 'ready')
+                    out.append(self.viol(
+                        f'remove:respawned-instance-never-runs:{why}',
+                        f'{_id(inst)} was removed earlier, is in the pool '
+                        f'again (flows {_fs(t.flow_nums)}) with all its '
+                        f'prerequisites satisfied, but it is {why} and '
+                        f'nothing can happen any more ({kind})'))
+                    if inst == self.rerun_pending:
+                        self.rerun_pending = None
         if self.rerun_pending is not None and (
                 kind.startswith('quiescent') or kind == 'stopped:AUTO'):
-            if w.env.pending() or any(
-                    j.live for j in w.env.jobs.values()):
-                return []
             X = self.rerun_pending
-            return [self.viol(
+            out.append(self.viol(
                 'remove:removed-task-never-ran-again',
-                f'{_id(X)} was removed after finishing and then given all '
-                f'its prerequisites again, but the run ended ({kind}) '
-                'without it being submitted again')]
-        return []
+                f'{_id(X)} was removed and then given all its prerequisites '
+                f'again, but the run ended ({kind}) without it being '
+                'submitted again'))
+        return out
